@@ -157,9 +157,23 @@ func zzsNode(t *zzT, n int) (*Syncer, []*blockchain.Block) {
 			t.Fail("setup: AddBlock")
 		}
 	}
+	// history: one more block was applied on top and reverted again (a fork the node left); its ID must be
+	// unknown to the node afterwards although it went through the block cache
+	zzsReverted = zzsBlock(uint32(n), prev)
+	zzsReverted.Header.StateRoot = cbytes.Repeat([]byte{0x66}, 32)
+	zzsReverted.Header.Init()
+	if err := chain.AddBlock(database.NewBatch(), zzsReverted, nil, 0, false); err != nil {
+		t.Fail("setup: AddBlock of the block to revert")
+	}
+	if err := chain.RemoveBlock(database.NewBatch(), false); err != nil {
+		t.Fail("setup: RemoveBlock")
+	}
 	zzsBanned = 0
 	return &Syncer{chain: chain, logger: zzsLog{}, conn: &p2p.Connection{}}, blocks
 }
+
+// zzsReverted: the block zzsNode applied on top of the chain and reverted again.
+var zzsReverted *blockchain.Block
 
 // C19.b: GetBlocksFromID answers a well-formed request for a block of the node's own chain with the
 // consecutive blocks above it (at most 103, up to the tip, ascending), answers an unknown ID with an
@@ -190,8 +204,12 @@ func zzH_C19_blocks_from_id_handler(t *zzT) {
 			}
 		}
 		t.Reach("served")
-	case 1: // well-formed, unknown ID
-		h(w, &p2p.Request{Data: (&GetBlocksFromIDRequest{ID: cbytes.Repeat([]byte{9}, 32)}).Encode()})
+	case 1: // well-formed, unknown ID: never seen, or the ID of a block the node reverted
+		unknown := cbytes.Repeat([]byte{9}, 32)
+		if t.Bool("unknown.isReverted") {
+			unknown = zzsReverted.Header.ID
+		}
+		h(w, &p2p.Request{Data: (&GetBlocksFromIDRequest{ID: unknown}).Encode()})
 		t.Assert(zzsBanned == 0 && w.errs == 1 && len(w.data) == 0, "unknown block ID: error response, no ban")
 		t.Reach("unknown")
 	default: // arbitrary bytes (nil when length 0 is chosen as nil)
@@ -240,9 +258,11 @@ func zzH_C19_highest_common_block_handler(t *zzT) {
 	var ids [][]byte
 	best := -1
 	for i := 0; i < cnt; i++ {
-		k := t.Range(t.Name("id", i), 0, n) // n = unknown ID
+		k := t.Range(t.Name("id", i), 0, n+1) // n = unknown ID, n+1 = ID of a reverted block (unknown as well)
 		if k == n {
 			ids = append(ids, cbytes.Repeat([]byte{byte(7 + i)}, 32))
+		} else if k == n+1 {
+			ids = append(ids, zzsReverted.Header.ID)
 		} else {
 			ids = append(ids, blocks[k].Header.ID)
 			if k > best {
